@@ -88,6 +88,26 @@ func excludes(a, b Access) (string, bool) {
 func runC09(p *Prog, r *Report) {
 	roots := c09RootTypes(p)
 	r.Floor("C09.R1", len(roots), 9, "root types (handlers / mutex owners in public packages)")
+	totalPaths := c09Races(p, r, "C09.R1", roots)
+	r.Floor("C09.R1", totalPaths, 40, "shared written locations")
+	c09Reacquire(p, r, "C09.R4", roots)
+	r.Floor("C09.R4", lockOpsOf(p, roots), 40, "lock acquisitions on call paths from entry points")
+	nLocks := c09Pairing(p, r, "C09.R3", "")
+	r.Floor("C09.R3", nLocks, 25, "lock acquisitions")
+}
+
+func lockOpsOf(p *Prog, roots []*types.Named) int {
+	n := 0
+	for _, t := range roots {
+		n += LocksetFor(p, t).LockOps
+	}
+	return n
+}
+
+// c09Races (R1): every pair of conflicting accesses to a shared location, over all call paths from
+// the exported methods of the root types, shares an excluding lock. Returns the number of written
+// shared locations examined.
+func c09Races(p *Prog, r *Report, rule string, roots []*types.Named) int {
 	totalPaths := 0
 	unknown := 0
 	for _, typ := range roots {
@@ -95,7 +115,7 @@ func runC09(p *Prog, r *Report) {
 		unknown += ls.Unknown
 		tn := shortType(typ)
 		if ls.Budget {
-			r.Undecided("C09.R1", tn+": analysis budget", "-", "call-expansion budget exhausted; result would be incomplete")
+			r.Undecided(rule, tn+": analysis budget", "-", "call-expansion budget exhausted; result would be incomplete")
 		}
 		var acc []Access
 		for _, a := range ls.Accesses {
@@ -169,7 +189,7 @@ func runC09(p *Prog, r *Report) {
 			if len(bad) == 0 {
 				a0 := byPath[path][0]
 				lk := a0.Held("R")
-				r.Pass("C09.R1", tn+": "+path, p.InstrPos(a0.Instr), fmt.Sprintf("%d accesses, every conflicting pair shares an excluding lock (e.g. %s)", len(byPath[path]), lk))
+				r.Pass(rule, tn+": "+path, p.InstrPos(a0.Instr), fmt.Sprintf("%d accesses, every conflicting pair shares an excluding lock (e.g. %s)", len(byPath[path]), lk))
 				continue
 			}
 			keys := make([]string, 0, len(bad))
@@ -179,18 +199,23 @@ func runC09(p *Prog, r *Report) {
 			sort.Strings(keys)
 			for _, k := range keys {
 				b := bad[k]
-				r.Fail("C09.R1", k, p.InstrPos(b.a.Instr), fmt.Sprintf("%s (%s) with locks {%s} conflicts with %s %s in %s at %s [entry %s] with locks {%s}: no common excluding lock",
+				r.Fail(rule, k, p.InstrPos(b.a.Instr), fmt.Sprintf("%s (%s) with locks {%s} conflicts with %s %s in %s at %s [entry %s] with locks {%s}: no common excluding lock",
 					modeWord(b.a.Mode), b.a.What, b.a.Locks, modeWord(b.other.Mode), b.other.Path, FName(b.other.Fn), p.InstrPos(b.other.Instr), b.other.Root, b.other.Locks))
 			}
 		}
 	}
-	r.Floor("C09.R1", totalPaths, 40, "shared written locations")
-	r.Note(fmt.Sprintf("C09: %d root types, %d written shared locations, %d accesses through values with undetermined path (not analysed)", len(roots), totalPaths, unknown))
+	r.Note(fmt.Sprintf("%s: %d root types, %d written shared locations, %d accesses through values with undetermined path (not analysed)", rule, len(roots), totalPaths, unknown))
+	return totalPaths
+}
 
-	// R3: lock pairing
+// c09Pairing (R3): every lock acquisition is released on every path to a return (directly or by a
+// registered defer). pkg restricts the functions examined to one package ("" = whole module).
+func c09Pairing(p *Prog, r *Report, rule, pkg string) int {
 	nLocks := 0
 	for _, fn := range p.ModuleFuncs() {
 		if root := enclosingRoot(fn); root.Pkg == nil || strings.Contains(root.Pkg.Pkg.Path(), "/testutils") || isClockPkg(fn) {
+			continue
+		} else if pkg != "" && root.Pkg.Pkg.Name() != pkg {
 			continue
 		}
 		for _, c := range Calls(fn) {
@@ -224,12 +249,50 @@ func runC09(p *Prog, r *Report) {
 				return false
 			}
 			ret := ReturnReachableAvoiding(fn, call, isRelease, nil)
-			r.Check(ret == nil, "C09.R3", "lock pairing in "+FName(fn)+": "+op+" #"+fmt.Sprint(lockOrdinal(fn, call)), p.InstrPos(call),
+			r.Check(ret == nil, rule, "lock pairing in "+FName(fn)+": "+op+" #"+fmt.Sprint(lockOrdinal(fn, call)), p.InstrPos(call),
 				"every path from the lock to a return passes its unlock (or a defer of it)",
 				"a return is reachable with the lock still held"+posOf(p, ret))
 		}
 	}
-	r.Floor("C09.R3", nLocks, 25, "lock acquisitions")
+	return nLocks
+}
+
+// c09Reacquire (R4): sync.Mutex and sync.RWMutex are not re-entrant. A Lock on a mutex that is in
+// the must-lockset at that point (held on EVERY path to it, in the calling context of some entry
+// point, including String() methods reached through %v formatting of the receiver by a logger or
+// fmt), or an RLock on a mutex held exclusively, blocks forever: the request never completes and
+// every later request and administration call queues up behind it.
+func c09Reacquire(p *Prog, r *Report, rule string, roots []*types.Named) {
+	total := 0
+	for _, typ := range roots {
+		ls := LocksetFor(p, typ)
+		tn := shortType(typ)
+		total += ls.LockOps
+		seen := map[string]bool{}
+		for _, a := range ls.Reacquire {
+			base := strings.TrimSuffix(a.Root, "$go")
+			if _, ex := c09ExemptRoots[base]; ex {
+				continue
+			}
+			k := fmt.Sprintf("%s: %s of %s in %s with it already held [entry %s]", tn, a.What, a.Path, FName(a.Fn), a.Root)
+			if seen[k] {
+				continue
+			}
+			seen[k] = true
+			r.Fail(rule, k, p.InstrPos(a.Instr), fmt.Sprintf("%s on %s while the same mutex is held (%s) on every path to this point, locks {%s}: sync mutexes are not re-entrant, the goroutine blocks forever holding the lock", a.What, a.Path, modeWord2(a.Mode), a.Locks))
+		}
+		if len(seen) == 0 && ls.LockOps > 0 {
+			r.Pass(rule, tn+": no lock is acquired while already held", "-", fmt.Sprintf("%d lock acquisitions on the call paths from %d entry points (String() of %%v-formatted receivers included), none on a mutex in the must-lockset", ls.LockOps, len(ls.Roots)))
+		}
+	}
+	_ = total
+}
+
+func modeWord2(m string) string {
+	if m == "W" {
+		return "exclusively"
+	}
+	return "shared"
 }
 
 func posOf(p *Prog, r *ssa.Return) string {
